@@ -110,9 +110,19 @@ def parse_fragment(src: str, a: ast.AST):
         except SyntaxError:
             # unparenthesized tuple/yield/walrus/multi-line: parse as an expression statement or in parentheses
             try:
+                m = ast.parse(src)
+                if len(m.body) == 1 and isinstance(m.body[0], ast.Expr) and type(m.body[0].value) is type(a):
+                    return m.body[0].value
+            except SyntaxError:
+                pass
+            try:
                 lines = src.split('\n')
                 m = ast.parse('(\n' + src + '\n)', mode='eval').body
                 ast.increment_lineno(m, -1)
+                if isinstance(m, ast.Tuple) and isinstance(a, ast.Tuple) and not src.lstrip().startswith('('):
+                    # the added parentheses became the tuple's own: its extent is not comparable, its elements are
+                    for p_ in POS:
+                        setattr(m, p_, getattr(a, p_, None))
                 return m
             except SyntaxError as e:
                 return f'expr root does not parse: {e}'
